@@ -115,6 +115,10 @@ const (
 
 const MaxSafe = int64(1) << 53
 
+// FloatTextLenient makes PrintVal give floats outside the agreed zone some text instead of leaving the
+// domain; used by callers that only need to know whether the program has a defined value at all (C04).
+var FloatTextLenient bool
+
 // FloatTextOK reports whether every backend agrees on the text of f: dyadic
 // rationals of moderate magnitude (and zero).
 func FloatTextOK(f float64) bool {
@@ -146,6 +150,10 @@ func PrintVal(v Value) (s string, st Status) {
 		return strconv.FormatInt(v.I, 10), OK
 	case KFloat:
 		if !FloatTextOK(v.F) {
+			if FloatTextLenient {
+				// only the spelling is open: let the evaluation go on, so that what follows is still checked
+				return strconv.FormatFloat(v.F, 'g', -1, 64), OK
+			}
 			return "", OOD
 		}
 		return strconv.FormatFloat(v.F, 'f', -1, 64), OK
